@@ -192,6 +192,8 @@ func c09LcClass(err error) string {
 		return "nestedDisabled"
 	case has("get sequencer of state info"), has("get next sequencer of state info"), has("no block descriptor found"):
 		return "internal"
+	case has("in a transaction with non ibc messages"):
+		return "mixedTx"
 	case has("canonical channel already exists"):
 		return "chanExists"
 	case has("client latest height not less than new latest height"):
